@@ -171,7 +171,9 @@ class C12(Prop):
       'harness/c11_geno.py reference of members (case generation) and swap_sites (which node Swap picks)',
       'Swap is driven by a scripted random source (shuffle = identity, sample = recorded pair)',
       'from_dict / verbose JSON / dna[...] lookups are checked by the oracle on the real code only (not modelled)',
-      'modelled, not verified: to_numbers, from_numbers, compact form and its parser, use_spec beliefs, ids, to_dict',
+      'modelled, not verified: to_numbers, from_numbers, compact form and its parser, use_spec beliefs, ids, to_dict '
+      '(the 30 to_dict option triples and the node bindings after every producer step are compared verbatim; '
+      'no Lean theorem about to_dict / from_dict)',
       'float literal values, hints, userdata, metadata and format() are outside the model',
   ]
   assumptions = ['decision-point names and location keys are plain identifiers (no dots / brackets)',
